@@ -6,6 +6,7 @@ import (
 	"encoding/json"
 	"fmt"
 	"io"
+	"os"
 	"regexp"
 	"sort"
 	"strings"
@@ -104,10 +105,7 @@ func mutClass(m vfs.Mut) string {
 // decoded record; bad = files that look like object files but do not decode.
 func decodeFiles(f *vfs.FS, dir string, cfg Cfg) (objs map[string]*Rec, bad []string) {
 	objs = map[string]*Rec{}
-	ext := cfg.Ext
-	if ext == "" {
-		ext = ".json"
-	}
+	ext := cfg.BaseExt()
 	if cfg.Compress {
 		ext += ".gz"
 	}
@@ -222,6 +220,35 @@ func agree(db *sod.DB, cfg Cfg, files map[string]*Rec) []string {
 	return out
 }
 
+// agreeKinds names the kinds of disagreement in the output of agree (signature
+// axis: a stale index *value* - finding K1 - is not an index holding other *ids*
+// than the directory).
+func agreeKinds(pr []string) string {
+	kinds := map[string]bool{}
+	for _, p := range pr {
+		switch {
+		case strings.HasPrefix(p, "index of "):
+			kinds["stale-index-value"] = true
+		case strings.HasPrefix(p, "index holds "):
+			kinds["id-sets-differ"] = true
+		case strings.HasPrefix(p, "All returns an object without file"):
+			kinds["id-sets-differ"] = true
+		case strings.HasPrefix(p, "All returns a value"):
+			kinds["read-differs-from-file"] = true
+		case strings.HasPrefix(p, "two object files"):
+			kinds["files-not-unique"] = true
+		default:
+			kinds["read-fails"] = true
+		}
+	}
+	var ks []string
+	for k := range kinds {
+		ks = append(ks, k)
+	}
+	sort.Strings(ks)
+	return strings.Join(ks, "+")
+}
+
 // rawValue returns the Go value of field path p of r as a user would pass it to Search.
 func rawValue(p string, r *Rec) interface{} {
 	switch p {
@@ -320,8 +347,29 @@ func checkCrash(rec *Recorded, img crashImage, prop string) []Violation {
 	}
 	_ = asyncTag
 	phase := fmt.Sprintf("object-change-persisted=%s|schema-committed=%s", objPersisted, schemaCommitted)
-	if img.K >= len(rec.Log) {
-		// no call was interrupted: the process stopped after the last acknowledgement
+	// does anything the interrupted call did show in the collection? Temporary
+	// files that were never renamed into place do not.
+	visible := func(m vfs.Mut) bool {
+		target := m.Path
+		if m.Kind == vfs.MRename {
+			target = m.To
+		}
+		c := fileClass(target)
+		return c == "object" || c == "schema" || c == "dir" || c == "other"
+	}
+	touched := false
+	for i := 0; i < img.K; i++ {
+		if rec.Log[i].Call == img.Call && visible(rec.Log[i]) {
+			touched = true
+		}
+	}
+	if img.Cut >= 0 && img.K < len(rec.Log) && visible(rec.Log[img.K]) {
+		touched = true
+	}
+	if img.K >= len(rec.Log) || !touched {
+		// no call was interrupted, or nothing the interrupted call did is visible
+		// in the collection (at most a temporary file): its content is the one left
+		// by a process that stopped right after the last acknowledgement
 		phase = "after-acknowledgement"
 	}
 	fail := func(sym, what string) {
@@ -333,6 +381,21 @@ func checkCrash(rec *Recorded, img crashImage, prop string) []Violation {
 		})
 	}
 	fsys := Materialize(rec.Log, img.K, img.Cut)
+	if os.Getenv("VERIF_DEBUG") != "" {
+		for i, m := range rec.Log {
+			mark := " "
+			if i >= img.K {
+				mark = "x"
+			}
+			fmt.Fprintf(os.Stderr, "#DEBUG %s %3d call=%d %-8s %s %s %d bytes\n", mark, i, m.Call, m.Kind, renameSlots(rec.Slots, m.Path), renameSlots(rec.Slots, m.To), len(m.Data))
+		}
+		for _, p := range fsys.Paths(dbRoot) {
+			if !strings.HasSuffix(p, "/") {
+				data, _ := fsys.ReadFile(p)
+				fmt.Fprintf(os.Stderr, "#DEBUG file %s: %s\n", renameSlots(rec.Slots, p), renameSlots(rec.Slots, string(data)))
+			}
+		}
+	}
 	acked := img.Call - 1 // calls fully acknowledged
 	if acked > len(rec.Path) {
 		acked = len(rec.Path)
@@ -370,13 +433,18 @@ func checkCrash(rec *Recorded, img crashImage, prop string) []Violation {
 				return
 			}
 			if pr := agree(db, cfg, files); len(pr) > 0 {
-				fail("clean-but-disagree", "the load reports no corruption but index and files disagree: "+strings.Join(pr, "; "))
+				fail("clean-but-disagree:"+agreeKinds(pr), "the load reports no corruption but index and files disagree: "+strings.Join(pr, "; "))
 				return
 			}
 		}
 		// Repair converges
 		if rerr := db.Repair(&Rec{}); rerr != nil {
-			fail("repair-failed", "Repair failed: "+rerr.Error())
+			sym := "repair-failed"
+			if strings.Contains(rerr.Error(), "uniqueness constraint") {
+				// a stale index entry (finding K1) holds the unique value a file re-uses
+				sym = "repair-failed-unique"
+			}
+			fail(sym, "Repair failed: "+rerr.Error())
 			return
 		}
 		if cerr := db.Control(); cerr != nil {
@@ -389,7 +457,7 @@ func checkCrash(rec *Recorded, img crashImage, prop string) []Violation {
 			return
 		}
 		if pr := agree(db, cfg, files2); len(pr) > 0 {
-			fail("disagree-after-repair", "after Repair index and files disagree: "+strings.Join(pr, "; "))
+			fail("disagree-after-repair:"+agreeKinds(pr), "after Repair index and files disagree: "+strings.Join(pr, "; "))
 			return
 		}
 		// acknowledged operations are reflected; the interrupted one is atomic per object
@@ -759,7 +827,11 @@ func runC06Faults(c *Ctx) {
 								files, bad := decodeFiles(w.FS, dir, cfg)
 								pr := agree(db2, cfg, files)
 								if len(bad) > 0 || len(pr) > 0 {
-									fail("silent-divergence", "the call failed ("+w.LastErr.Error()+"), reads changed, Control and a fresh load report nothing, but index and files disagree: "+strings.Join(pr, "; "))
+									kind := agreeKinds(pr)
+									if len(bad) > 0 {
+										kind += "+undecodable-file"
+									}
+									fail("silent-divergence:"+kind, "the call failed ("+w.LastErr.Error()+"), reads changed, Control and a fresh load report nothing, but index and files disagree: "+strings.Join(pr, "; "))
 								} else {
 									// the error was reported and what reached the files is consistent; the live
 									// handle must then show exactly what a fresh handle shows (no cached or
@@ -786,7 +858,11 @@ func runC06Faults(c *Ctx) {
 							}
 							files, _ := decodeFiles(w.FS, dir, cfg)
 							if pr := agree(db2, cfg, files); len(pr) > 0 || db2.Control() != nil {
-								fail("disagree-after-repair", "after the failed call and Repair index and files disagree: "+strings.Join(pr, "; "))
+								kind := agreeKinds(pr)
+								if len(pr) == 0 {
+									kind = "control-fails"
+								}
+								fail("disagree-after-repair:"+kind, "after the failed call and Repair index and files disagree: "+strings.Join(pr, "; "))
 							}
 							return
 						}
